@@ -114,6 +114,8 @@ PLAIN = {'int': int, 'float': float, 'bool': bool, 'str': str, 'list': list, 'tu
 def type_relation(a, tname):
     """is the value of that type?  True / False where there is no room for interpretation, None otherwise (a container with
     elements of several types, a tuple of another length)"""
+    if isinstance(a, (type({}.keys()), type({}.items()), type({}.values()), range)):
+        return None       # values of classes pedal's type system has no notion of are given the unknown type, which conforms to anything
     if tname.startswith("'"):
         # the same type written as a string (evaluated by pedal in the student's namespace)
         return type_relation(a, tname.strip("'").replace(', ', ','))
@@ -166,6 +168,15 @@ def spec_equal(a, b, exact=False, delta=0.001):
             except OverflowError:
                 return False         # an int beyond the floats
         return a == b
+    lazy = (range, type({}.values()))
+    if isinstance(a, lazy) or isinstance(b, lazy):
+        return None      # pedal compares what they yield (as a list / set): its own documented choice
+    views = (type({}.keys()), type({}.items()))
+    if isinstance(a, views) or isinstance(b, views):
+        # keys and items views are set-like: equal to a set / another view with the same members (in any order)
+        if isinstance(a, views + (set, frozenset)) and isinstance(b, views + (set, frozenset)) and a == b:
+            return True
+        return None
     if dataclasses.is_dataclass(a) and dataclasses.is_dataclass(b):
         return a == b      # instances: Python's own (generated) equality
     if isinstance(a, Dog) and isinstance(b, Dog):
